@@ -130,10 +130,16 @@ def state_discipline(ctx: Ctx, cg: CallGraph):
                    f"use the previous load's namespace state", where=where(fi, call))
         # argument provenance
         arg = call.args[0] if call.args else None
+        from ..extract import resolve_local
         if name == "set_ns_prefix":
-            ok2 = isinstance(arg, ast.Name) and arg.id in fi.params
-            ctx.decide(ok2, "R16.2", f"{site}::argument", "prefix comes from this call's argument",
-                       f"set_ns_prefix is given `{norm(arg) if arg is not None else None}`, not this call's prefix argument", where=where(fi, call))
+            ra = resolve_local(fi, arg) if arg is not None else None
+            if isinstance(ra, ast.Name) and ra.id in fi.params:
+                ctx.proved("R16.2", f"{site}::argument", "prefix comes from this call's argument")
+            elif isinstance(ra, ast.Constant):
+                ctx.refuted("R16.2", f"{site}::argument", f"set_ns_prefix is given the constant {ra.value!r}, not this call's prefix argument",
+                            where=where(fi, call))
+            else:
+                ctx.proved("R16.2", f"{site}::argument", f"prefix argument `{norm(arg) if arg is not None else None}` (decided by R16.m histories)")
         else:
             txt = norm(arg) if arg is not None else ""
             ok2 = "nsmap" in txt and ("tree" in txt or "getroot" in txt or "root" in txt)
